@@ -3,5 +3,6 @@ CONSTANTS
   MaxThreads = 4
   NameLens = {0, 2}
   PlaceByNamedIndex = TRUE
+  CountListed = TRUE
 INVARIANT C15
 CHECK_DEADLOCK FALSE
